@@ -1,8 +1,123 @@
 import Driver.Codec
+import LopdfModel.Model.Text
 namespace Lopdf.Driver.C16
-open Lopdf Lopdf.Codec
+open Lopdf Lopdf.Codec Lopdf.Gen
 
-/-- protocol operations of property C16: `none` = not an operation of this property. -/
-def handle (op : String) (args : List String) : Option String := none
+/-- a string token: `-` (empty) or lower-case hex scalar values joined by `.` -/
+def parseUStr (tok : String) : Option UStr :=
+  if tok = "-" then some []
+  else (tok.splitOn ".").mapM (fun h =>
+    let cs := h.toList
+    if cs.isEmpty || cs.length > 6 || !cs.all (fun c => isHexDigit c.toNat.toUInt8) then none
+    else some (cs.foldl (fun acc c => acc * 16 + (hexVal c.toNat.toUInt8).toNat) 0))
+
+def hexNat (n : Nat) : String :=
+  let rec go (fuel n : Nat) (acc : List Char) : List Char :=
+    match fuel with
+    | 0 => acc
+    | fuel + 1 =>
+      let d := Char.ofNat (hexDigitL (n % 16).toUInt8).toNat
+      if n < 16 then d :: acc else go fuel (n / 16) (d :: acc)
+  String.ofList (go 8 n [])
+
+def showUStr (s : UStr) : String :=
+  if s.isEmpty then "-" else ".".intercalate (s.map hexNat)
+
+def showOut (r : Outcome UStr) : String :=
+  match r with
+  | .ok s => "ok " ++ showUStr s
+  | .err _ => "err"
+  | .panic site => "panic " ++ site
+
+def showCells (t : Table) : String :=
+  ",".intercalate (t.map fun c => match c with | some u => hexNat u | none => "_")
+
+def showEnc (e : Option Enc) : String :=
+  match e with
+  | none => "err"
+  | some (.oneByte t) => "one " ++ showCells t
+  | some (.simple n) => "simple " ++ hexTok n
+  | some .cmap => "cmap"
+
+partial def parseFonts : Nat → List String → Option (List (Bytes × Dict) × List String)
+  | 0, ts => some ([], ts)
+  | k+1, ts =>
+    match ts with
+    | n :: ts1 => do
+      let nb ← bytesOfHex n
+      let (o, ts2) ← parseObj ts1
+      let d ← o.asDict
+      let (fs, ts3) ← parseFonts k ts2
+      pure ((nb, d) :: fs, ts3)
+    | [] => none
+
+partial def parseOps : Nat → List String → Option (List (Bytes × List Obj) × List String)
+  | 0, ts => some ([], ts)
+  | k+1, ts =>
+    match ts with
+    | n :: ts1 => do
+      let nb ← bytesOfHex n
+      let (o, ts2) ← parseObj ts1
+      let a ← o.asArr
+      let (os, ts3) ← parseOps k ts2
+      pure ((nb, a) :: os, ts3)
+    | [] => none
+
+/-- protocol operations of property C16 -/
+def handle (op : String) (args : List String) : Option String :=
+  match op with
+  | "c16.fenc" =>                      -- <fontdict>            -> one <256 cells> | simple <hex> | cmap | err
+    some <| match parseObj args with
+    | some (.dict d, []) => showEnc (getFontEncoding d)
+    | _ => "bad-op"
+  | "c16.dec" =>                       -- <fontdict> <hex>      -> ok <ustr> | err | panic
+    some <| match parseObj args with
+    | some (.dict d, [h]) =>
+      match bytesOfHex h, getFontEncoding d with
+      | some bs, some e => showOut (decodeText e bs)
+      | some _, none => "err"
+      | _, _ => "bad-op"
+    | _ => "bad-op"
+  | "c16.enc" =>                       -- <fontdict> <ustr>     -> ok <hex> | err
+    some <| match parseObj args with
+    | some (.dict d, [u]) =>
+      match parseUStr u, getFontEncoding d with
+      | some s, some e => match encodeText e s with | some b => "ok " ++ hexTok b | none => "out-of-model"
+      | some _, none => "err"
+      | _, _ => "bad-op"
+    | _ => "bad-op"
+  | "c16.ts" =>                        -- <ustr>                -> <obj>
+    some <| match args with
+    | [u] => match parseUStr u with | some s => showObj (textString s) | none => "bad-op"
+    | _ => "bad-op"
+  | "c16.dts" =>                       -- <obj>                 -> ok <ustr> | err
+    some <| match parseObj args with
+    | some (o, []) => showOut (decodeTextString o)
+    | _ => "bad-op"
+  | "c16.tsrt" =>                      -- <ustr>                -> <obj> ; ok <ustr>
+    some <| match args with
+    | [u] => match parseUStr u with
+      | some s => showObj (textString s) ++ " ; " ++ showOut (decodeTextString (textString s))
+      | none => "bad-op"
+    | _ => "bad-op"
+  | "c16.u16" =>
+    some <| match args with
+    | [u] => match parseUStr u with | some s => "ok " ++ hexTok (encodeUtf16Be s) | none => "bad-op"
+    | _ => "bad-op"
+  | "c16.u8" =>
+    some <| match args with
+    | [u] => match parseUStr u with | some s => "ok " ++ hexTok (encodeUtf8 s) | none => "bad-op"
+    | _ => "bad-op"
+  | "c16.extract" =>                   -- <k> (<name> <fontdict>)* <n> (<operator> <A…>)*  -> ok <ustr> | err
+    some <| match args with
+    | k :: rest =>
+      match k.toNat?.bind (fun k => parseFonts k rest) with
+      | some (fonts, n :: rest2) =>
+        match n.toNat?.bind (fun n => parseOps n rest2) with
+        | some (ops, []) => showOut (extractText fonts ops)
+        | _ => "bad-op"
+      | _ => "bad-op"
+    | [] => "bad-op"
+  | _ => none
 
 end Lopdf.Driver.C16
